@@ -58,6 +58,55 @@ def _array_pairs(model, arr):
     return list(reversed(pairs)), None
 
 
+_CANDIDATE_KEYS = []
+
+
+def _dict_from_model(model, arr, depth=0):
+    """Python dict of an array-valued term in a model: explicit entries of the model value plus probing
+    of the candidate keys (string literals of the path condition)."""
+    pairs, default = _array_pairs(model, arr)
+    keys = []
+    for k, _v in pairs:
+        if z3.is_string_value(k):
+            keys.append(str_value(k))
+    for k in _CANDIDATE_KEYS:
+        if k not in keys:
+            keys.append(k)
+    out = {}
+    for k in keys:
+        v = model.eval(z3.Select(arr, z3.StringVal(k)), model_completion=True)
+        if head_tag(v) in (None, "vabsent"):
+            continue
+        out[k] = _val_to_py(model, v, depth + 1)
+    return out
+
+
+def collect_string_literals(formulas, limit=400):
+    seen = set()
+    out = []
+    stack = list(formulas)
+    visited = set()
+    while stack and len(out) < limit:
+        t = stack.pop()
+        i = t.get_id()
+        if i in visited:
+            continue
+        visited.add(i)
+        if z3.is_string_value(t):
+            s = str_value(t)
+            if s not in seen:
+                seen.add(s)
+                out.append(s)
+            continue
+        if z3.is_quantifier(t):
+            stack.append(t.body())
+            continue
+        if z3.is_app(t):
+            for j in range(t.num_args()):
+                stack.append(t.arg(j))
+    return out
+
+
 def term_to_py(model, t, depth=0):
     """Model value of a PyVal term as a python value (best effort; dicts keep only explicit keys)."""
     ev = model.eval(t, model_completion=True)
@@ -94,16 +143,7 @@ def _val_to_py(model, ev, depth=0):
             return []
     if tag == "vdict":
         from .core import DArr
-        pairs, default = _array_pairs(model, DArr(a))
-        out = {}
-        for k, v in pairs:
-            if not z3.is_string_value(k):
-                continue
-            if head_tag(v) == "vabsent":
-                out.pop(str_value(k), None)
-            else:
-                out[str_value(k)] = _val_to_py(model, v, depth + 1)
-        return out
+        return _dict_from_model(model, DArr(a), depth)
     if tag == "vobj":
         return None
     return None
@@ -122,8 +162,18 @@ def _freeze(v):
     return v
 
 
-def extract_inputs(model, inputs):
+def extract_inputs(model, inputs, pc=()):
     out = {}
+    global _CANDIDATE_KEYS
+    _CANDIDATE_KEYS = collect_string_literals(list(pc)) if pc else []
+    for name, rec in inputs.items():
+        if rec[0] == "str":
+            try:
+                ev = model.eval(rec[1], model_completion=True)
+                if z3.is_string_value(ev) and str_value(ev) not in _CANDIDATE_KEYS:
+                    _CANDIDATE_KEYS.append(str_value(ev))
+            except Exception:
+                pass
     for name, rec in inputs.items():
         kind = rec[0]
         try:
@@ -142,16 +192,7 @@ def extract_inputs(model, inputs):
             elif kind == "json":
                 out[name] = _freeze(term_to_py(model, rec[1]))
             elif kind == "dict":
-                pairs, default = _array_pairs(model, rec[1])
-                d = {}
-                for k, v in pairs:
-                    if not z3.is_string_value(k):
-                        continue
-                    if head_tag(v) == "vabsent":
-                        d.pop(str_value(k), None)
-                    else:
-                        d[str_value(k)] = _val_to_py(model, v)
-                out[name] = _freeze(d)
+                out[name] = _freeze(_dict_from_model(model, rec[1]))
             elif kind == "list":
                 ev = model.eval(rec[1], model_completion=True)
                 try:
@@ -228,6 +269,8 @@ class HarnessResult:
         self.functions = set()
         self.infeasible_completed = 0
         self.witnessed_paths = 0
+        self.pools = {}
+        self.input_kinds = {}
 
     def to_json(self):
         return {"name": self.name, "paths": self.paths, "killed": self.killed, "unsupported": self.unsupported,
@@ -253,13 +296,19 @@ def run_harness(fn, name=None, cfg=None, solver_timeout_ms=10000, max_paths=2000
     ctx = Ctx(timeout_ms=int(os.environ.get('PYVC_FEAS_MS', '20')))
     ctx.max_paths = max_paths
 
+    label_bad = {}
+
     def on_check(label, goal):
         ob = Obligation(name, label, res.paths)
         ob.goal = (str(goal)[:300])
         ob.pc_size = len(ctx.pc)
         t0 = time.time()
+        bad = label_bad.get(label, 0)
         if z3.is_true(goal):
             ob.status, ob.solver = "proved", "simplifier"
+        elif bad >= 3:
+            # this obligation already failed on three other paths: do not spend more solver time on it
+            ob.status, ob.solver = "unknown", "skipped (same obligation already refuted/undecided on 3 paths)"
         else:
             s = ctx.solver
             s.set("timeout", solver_timeout_ms)
@@ -271,7 +320,7 @@ def run_harness(fn, name=None, cfg=None, solver_timeout_ms=10000, max_paths=2000
             elif r == z3.sat:
                 ob.status, ob.solver = "refuted", "z3"
                 try:
-                    ob.inputs = extract_inputs(s.model(), ctx.inputs)
+                    ob.inputs = extract_inputs(s.model(), ctx.inputs, ctx.pc + [z3.Not(goal)])
                 except Exception as e:  # noqa
                     ob.inputs = {"__error__": repr(e)}
             else:
@@ -280,7 +329,7 @@ def run_harness(fn, name=None, cfg=None, solver_timeout_ms=10000, max_paths=2000
                 # the E-matching-only configuration cannot)
                 try:
                     s2 = z3.SimpleSolver()
-                    s2.set("timeout", solver_timeout_ms)
+                    s2.set("timeout", min(solver_timeout_ms, 5000))
                     s2.set("smt.mbqi", True)
                     for f in ctx.pc:
                         s2.add(f)
@@ -291,7 +340,7 @@ def run_harness(fn, name=None, cfg=None, solver_timeout_ms=10000, max_paths=2000
                     elif r2 == z3.sat:
                         ob.status, ob.solver = "refuted", "z3-mbqi"
                         try:
-                            ob.inputs = extract_inputs(s2.model(), ctx.inputs)
+                            ob.inputs = extract_inputs(s2.model(), ctx.inputs, ctx.pc + [z3.Not(goal)])
                         except Exception as e:  # noqa
                             ob.inputs = {"__error__": repr(e)}
                 except Exception:
@@ -309,6 +358,14 @@ def run_harness(fn, name=None, cfg=None, solver_timeout_ms=10000, max_paths=2000
             s.pop()
             s.set("timeout", ctx.timeout_ms)
         ob.time_s = time.time() - t0
+        if ob.status != "proved":
+            label_bad[label] = label_bad.get(label, 0) + 1
+            if label not in res.pools:
+                try:
+                    res.pools[label] = collect_string_literals(list(ctx.pc) + [goal], limit=80)
+                    res.input_kinds[label] = {n: (r[0], (r[2] if r[0] == "choice" and len(r) > 2 else None)) for n, r in ctx.inputs.items()}
+                except Exception:
+                    pass
         res.obligations.append(ob)
         if verbose:
             print("   [%s] %s path=%d %s %s %.3fs" % (name, label, ob.path, ob.status, ob.solver, ob.time_s))
@@ -375,3 +432,110 @@ def replay_native(fn, inputs):
         except BaseException as e:  # noqa
             err = "harness raised %s: %s" % (type(e).__name__, e)
     return {"failed": list(api.NATIVE.failures), "checked": list(api.NATIVE.checked), "error": err}
+
+
+# ---------------------------------------------------------------------------------------------
+# native witness search (used only to *find* a concrete failing input for an obligation the prover could
+# not discharge; the deciding step is the failed obligation, the witness is replayed on the real code)
+
+def _gen_json(rnd, pool, depth=0):
+    r = rnd.random()
+    if depth > 2:
+        r = r * 0.7
+    if r < 0.25:
+        return rnd.choice(pool) if pool else ""
+    if r < 0.35:
+        return rnd.choice([0, 1, -1, 2, 10, 2 ** 31, 2 ** 64, -2 ** 63])
+    if r < 0.42:
+        return rnd.choice([True, False])
+    if r < 0.48:
+        return None
+    if r < 0.53:
+        return rnd.choice([0.5, -1.5, 1e10])
+    if r < 0.62:
+        return ""
+    if r < 0.82:
+        return [_gen_json(rnd, pool, depth + 1) for _ in range(rnd.choice([0, 1, 1, 2, 3]))]
+    return {rnd.choice(pool) if pool else "k": _gen_json(rnd, pool, depth + 1) for _ in range(rnd.choice([0, 1, 2]))}
+
+
+def _gen_input(rnd, kind, extra, pool):
+    if kind == "int":
+        return rnd.choice([0, 1, -1, 2, 3, 5, 255, 256, 65535, 65536, 2 ** 32, 2 ** 64, -2 ** 31, rnd.randint(-1000, 1000), rnd.randint(0, 2 ** 40)])
+    if kind == "bool":
+        return rnd.choice([True, False])
+    if kind == "choice":
+        return rnd.randrange(extra) if extra else 0
+    if kind == "str":
+        return rnd.choice(pool + ["", "a", "\n", "x.y"]) if rnd.random() < 0.8 else "".join(rnd.choice("ab.-_=+/ \n") for _ in range(rnd.randint(0, 6)))
+    if kind == "bytes":
+        if rnd.random() < 0.5 and pool:
+            return _freeze(rnd.choice(pool).encode("utf-8", "ignore"))
+        return _freeze(bytes(rnd.choice([0, 1, 43, 45, 46, 47, 61, 65, 97, 120, 128, 255]) for _ in range(rnd.randint(0, 7))))
+    if kind == "json":
+        return _freeze(_gen_json(rnd, pool))
+    if kind == "dict":
+        d = {}
+        for _ in range(rnd.choice([0, 1, 2, 3, 4, 6])):
+            d[rnd.choice(pool) if pool and rnd.random() < 0.9 else "zz"] = _gen_json(rnd, pool)
+        return _freeze(d)
+    if kind == "list":
+        return _freeze([_gen_json(rnd, pool) for _ in range(rnd.choice([0, 1, 2, 3]))])
+    return None
+
+
+def _mutate(rnd, v, pool):
+    """Small structural mutation of a (frozen) JSON-ish input value."""
+    if isinstance(v, dict) and "__bytes__" not in v and "__float__" not in v:
+        d = dict(v)
+        r = rnd.random()
+        keys = list(d.keys())
+        if r < 0.3 and keys:
+            d.pop(rnd.choice(keys))
+        elif r < 0.65:
+            d[rnd.choice(pool) if pool else "zz"] = _freeze(_gen_json(rnd, pool))
+        elif keys:
+            k = rnd.choice(keys)
+            d[k] = _mutate(rnd, d[k], pool) if rnd.random() < 0.5 else _freeze(_gen_json(rnd, pool))
+        return d
+    if isinstance(v, list):
+        l = list(v)
+        r = rnd.random()
+        if r < 0.3 and l:
+            l.pop(rnd.randrange(len(l)))
+        elif r < 0.7:
+            l.append(_freeze(_gen_json(rnd, pool)))
+        elif l:
+            i = rnd.randrange(len(l))
+            l[i] = _mutate(rnd, l[i], pool)
+        return l
+    return _freeze(_gen_json(rnd, pool))
+
+
+def search_native(fn, label, kinds, pool, seed=0, budget_s=8.0, max_trials=20000):
+    import random as _random
+    rnd = _random.Random(seed * 7919 + hash(label) % 1000)
+    pool = [p for p in pool if len(p) < 40][:60]
+    seeds = [dict((k, _freeze(v)) for k, v in sd.items()) for sd in getattr(fn, "seeds", [])]
+    t0 = time.time()
+    n = 0
+    while n < max_trials and time.time() - t0 < budget_s:
+        n += 1
+        if seeds and rnd.random() < 0.85:
+            inputs = dict(rnd.choice(seeds))
+            for name, k in kinds.items():
+                if name not in inputs:
+                    inputs[name] = _gen_input(rnd, k[0], k[1], pool)
+            for _ in range(rnd.choice([1, 1, 2, 3])):
+                name = rnd.choice(list(inputs.keys()))
+                k = kinds.get(name, ("json", None))
+                if k[0] in ("dict", "list", "json"):
+                    inputs[name] = _mutate(rnd, inputs[name], pool)
+                else:
+                    inputs[name] = _gen_input(rnd, k[0], k[1], pool)
+        else:
+            inputs = {name: _gen_input(rnd, k[0], k[1], pool) for name, k in kinds.items()}
+        r = replay_native(fn, inputs)
+        if label in r["failed"]:
+            return inputs, n
+    return None, n
